@@ -52,7 +52,7 @@ func isGrammarCheck(c *core.Ctx, call *ssa.Call) bool {
 func grammarGuarded(c *core.Ctx, v ssa.Value, b *ssa.BasicBlock) bool {
 	o := an.Origin(v)
 	for _, g := range an.GuardingEdges(b) {
-		call, trueSucc, ok := an.BoolCallTest(an.BlockIf(g.From))
+		call, trueSucc, ok := an.BoolCallTest(g.If())
 		if !ok || g.Succ != trueSucc || !isGrammarCheck(c, call) {
 			continue
 		}
@@ -164,7 +164,7 @@ func matchElement(c *core.Ctx, m *ssa.Function, v ssa.Value, b *ssa.BasicBlock) 
 		return false
 	}
 	for _, g := range an.GuardingEdges(b) {
-		base, neg := an.CondBase(an.BlockIf(g.From).Cond)
+		base, neg := an.CondBase(g.If().Cond)
 		if ex, isEx := base.(*ssa.Extract); isEx && ex.Tuple == ssa.Value(mc) && ex.Index == 1 {
 			if (g.Succ == 0) != neg {
 				return true
@@ -383,7 +383,7 @@ func (pc *pathCheck) digestOK(dv ssa.Value, at *ssa.Call) (bool, string) {
 		return true, ""
 	}
 	for _, g := range an.GuardingEdges(at.Block()) {
-		x, nilSucc, ok := an.NilTest(an.BlockIf(g.From))
+		x, nilSucc, ok := an.NilTest(g.If())
 		if !ok || g.Succ != nilSucc {
 			continue
 		}
